@@ -971,6 +971,57 @@ static void run_accessors(int codec, const gbuf *src, size_t written, size_t n) 
     }
 }
 
+/* analysis entry points that report properties of the INPUT a caller sizes
+ * buffers from (C16): logged as Acc events against the same Enc event */
+static void run_analyzers(int codec, const uint64_t *xs, const uint32_t *x32, size_t n) {
+    int f;
+    switch (codec) {
+    case C_FOR:
+    case C_FOR_BATCH: {
+        varintFORMeta m;
+        memset(&m, 0x5A, sizeof(m));
+        f = GUARDED(varintFORAnalyze(xs, n, &m));
+        acc_emit(codec, "Analyze.count", f, (long long)m.count, 0, 0);
+        acc_emit(codec, "Analyze.minValue", f, 0, 1, m.minValue);
+        acc_emit(codec, "Analyze.offsetWidth", f, m.offsetWidth, 0, 0);
+        memset(&m, 0x5A, sizeof(m));
+        f = GUARDED(varintFORBatchAnalyze(xs, n, &m));
+        acc_emit(codec, "BatchAnalyze.count", f, (long long)m.count, 0, 0);
+        acc_emit(codec, "BatchAnalyze.minValue", f, 0, 1, m.minValue);
+        acc_emit(codec, "BatchAnalyze.offsetWidth", f, m.offsetWidth, 0, 0);
+        varintWidth w = 0;
+        f = GUARDED(w = varintFORComputeWidth(m.range));
+        acc_emit(codec, "ComputeWidth", f, (long long)w, 0, 0);
+        break;
+    }
+    case C_RLE: {
+        varintRLEMeta m;
+        memset(&m, 0x5A, sizeof(m));
+        f = GUARDED(varintRLEAnalyze(xs, n, &m));
+        acc_emit(codec, "Analyze.count", f, (long long)m.count, 0, 0);
+        acc_emit(codec, "Analyze.runCount", f, (long long)m.runCount, 0, 0);
+        acc_emit(codec, "Analyze.encodedSize", f, (long long)m.encodedSize, 0, 0);
+        break;
+    }
+    case C_BP32:
+    case C_BPD32: {
+        uint8_t w = 0;
+        f = GUARDED(w = varintBP128MaxBitWidth32(x32, n));
+        acc_emit(codec, "MaxBitWidth", f, w, 0, 0);
+        break;
+    }
+    case C_BP64:
+    case C_BPD64: {
+        uint8_t w = 0;
+        f = GUARDED(w = varintBP128MaxBitWidth64(xs, n));
+        acc_emit(codec, "MaxBitWidth", f, w, 0, 0);
+        break;
+    }
+    default:
+        break;
+    }
+}
+
 /* ---------------------------------------------------------------- scenario */
 static void scenario(int codec, long param, size_t n, const char *shape,
                      long sparam) {
@@ -1104,6 +1155,7 @@ static void scenario(int codec, long param, size_t n, const char *shape,
         }
         if (what & 8) {
             run_accessors(codec, &src, o.written, n);
+            run_analyzers(codec, xs, x32, n);
         }
         gb_free(&src);
     }
